@@ -13,10 +13,17 @@
      select <expr> <p> <add> <double> <table>
          -> ok <index> <cost> <cost of every row>   (model/Search.v select; expr and p are for the harness)
      report <expr> <p> <add> <double> <ops>
-         -> ok <stdout bytes>                        (model/Search.v report) *)
+         -> ok <stdout bytes>                        (model/Search.v report)
+     full <expr> <p> <add> <double>
+         the whole command INCLUDING the ensemble (model/SearchEns.v search_full with the stable sort as
+         oracle): generated only for targets below 2^20, where every list dict.primitive sorts has fewer
+         than 12 elements, which Go's sort.Slice sorts by insertion, i.e. stably
+         -> same result line as search
+     evalcmd <script>   -> ok <n:i+j:value,...> <doubles>:<adds> | err reject     (model/Search.v eval_cmd)
+     fmtcmd <script>    -> ok <bytes> | err reject                                (model/Search.v fmt_cmd) *)
 From Coq Require Import String.
 From Coq Require Import List NArith ZArith Bool QArith.
-From AV Require Import model.Proto model.Chain model.Program model.Search.
+From AV Require Import model.Proto model.Chain model.Program model.Search model.SearchEns.
 Import ListNotations.
 Open Scope N_scope.
 
@@ -96,8 +103,39 @@ Definition print_select (w : weights) (tbl : list (nat * nat)) (r : option (nat 
   | Some (i, c) => r_ok (print_nat i ++ [sp] ++ print_q c ++ [sp] ++ print_list (fun da => print_q (cost_of w da)) tbl)
   end.
 
+Definition print_line (l : nat * op * Z) : list N :=
+  let '(k, o, v) := l in
+  print_nat k ++ [58] ++ print_nat (fst o) ++ [43] ++ print_nat (snd o) ++ [58] ++ print_hexZ v.
+
+Definition print_evalcmd (r : list (nat * op * Z) * (nat * nat)) : list N :=
+  print_list print_line (fst r) ++ [sp] ++ print_nat (fst (snd r)) ++ [58] ++ print_nat (snd (snd r)).
+
+Definition reject {A} (f : A -> list N) (o : outcome A) : list N :=
+  match o with
+  | Ok a => r_ok (f a)
+  | Err _ => r_err $"reject"
+  | Panic c => r_panic c
+  | OutOfFuel => r_fuel
+  end.
+
 Definition run (line : list N) : list N :=
   match split sp line with
+  | [f; a] =>
+      match parse_bytes a with
+      | Some src =>
+          if str_eqb f $"evalcmd" then reject print_evalcmd (eval_cmd src)
+          else if str_eqb f $"fmtcmd" then reject print_bytes (fmt_cmd src)
+          else r_badcase
+      | None => r_badcase
+      end
+  | [f; e; p; a; d] =>
+      if str_eqb f $"full" then
+        match parse_bytes e, parse_decZ p, parse_weight a, parse_weight d with
+        | Some expr, Some pz, Some wa, Some wd =>
+            print_outcome print_sout (search_full (fun _ => None) expr pz (mkW wa wd))
+        | _, _, _, _ => r_badcase
+        end
+      else r_badcase
   | [f; e; p; a; d; t; b; o] =>
       if str_eqb f $"search" then run_search e p a d t b o else r_badcase
   | [f; e; p; a; d; x] =>
